@@ -7,7 +7,7 @@ from .enc import NONE_I
 from . import tlc
 
 LIT_KINDS = ['bin', 'bools', 'bitarray', 'hex', 'Bits', 'bytes', 'tuple', 'BitArray', 'oct', 'ConstBitStream',
-             'bytearray', 'BitStream', 'bitarray_le']
+             'bytearray', 'BitStream', 'bitarray_le', 'gen_truthy']
 
 
 def kind_ok(kind, n):
